@@ -234,6 +234,16 @@ SPECS += [
          props=["C02", "C03", "C05"]),
 ]
 
+# the decision of `get_transform_to`: raise / pass-through (`None`) / the conversion closure (the token 1); what
+# `compatible_with` and `==` answer are parameters here and composed with their translations in Props/TrGridCompat.lean
+SPECS += [
+    dict(lean="StructuredGrid_get_transform_to", path="data/grid_base.py", qual="StructuredGrid.get_transform_to", group="GridCompat",
+         fields={}, ignore_params=["other"], extra_params={"compat": "Bool", "isEq": "Bool"}, ret="Opt[Int]",
+         nested_defs={"trans": ("(1 : Int)", "Int")},
+         conds={"self.compatible_with(other)": "(compat = true)", "self == other": "(isEq = true)"},
+         props=["C15"]),
+]
+
 INTEG_COMMON = dict(
     path="adapters/time_integration.py", group="Integ", ret="Rat",
     calls={"self._unpack": "id", "interpolate": {"lean": "interpolate", "args": [0, 1, 2], "ret": "Rat"}},
